@@ -318,7 +318,9 @@ def normalize_url(
 
     # Dropping index:
     if strip_index:
-        segments = path.rsplit("/", 1)
+        # NOTE: the trailing slash, if kept, is not part of the last segment
+        kept_slash = "/" if len(path) > 1 and path.endswith("/") else ""
+        segments = path[: len(path) - len(kept_slash)].rsplit("/", 1)
 
         if len(segments) != 0:
             last_segment = segments[-1]
@@ -326,7 +328,7 @@ def normalize_url(
 
             if filename == "index" or filename == "default":
                 segments.pop()
-                path = "/".join(segments)
+                path = "/".join(segments) + kept_slash
 
     # Dropping irrelevant query items
     qsl = []
